@@ -108,6 +108,19 @@ def _table():
     if HAVE_PITCH:
         t.update({
             "melody.to_cent_voicing": (melody_ref.to_cent_voicing, 200),
+            "melody.hz2cents": (melody_ref.hz2cents, 400),
+            "melody.freq_to_voicing": (melody_ref.freq_to_voicing, 400),
+            "melody.constant_hop_timebase": (melody_ref.constant_hop_timebase, 10 ** 9),
+            "melody.resample_melody_series": (melody_ref.resample_melody_series, 200),
+            "melody.voicing_recall": (melody_ref.voicing_recall, 400),
+            "melody.voicing_false_alarm": (melody_ref.voicing_false_alarm, 400),
+            "multipitch.resample_multipitch": (multipitch_ref.resample_multipitch, 200),
+            "multipitch.compute_num_true_positives":
+                (multipitch_ref.compute_num_true_positives, 200),
+            "multipitch.compute_accuracy": (multipitch_ref.compute_accuracy, 400),
+            "multipitch.compute_err_score": (multipitch_ref.compute_err_score, 400),
+            "transcription.average_overlap_ratio":
+                (transcription_ref.average_overlap_ratio, 60),
             "melody.voicing_measures": (melody_ref.voicing_measures, 400),
             "melody.raw_pitch_accuracy": (melody_ref.raw_pitch_accuracy, 400),
             "melody.raw_chroma_accuracy": (melody_ref.raw_chroma_accuracy, 400),
